@@ -97,6 +97,15 @@ PROJECTS = {
     'star-import-cycle': ({'a.py': 'from b import *\nxa = 1\n', 'b.py': 'from a import *\nxb = 2\n', 'c.py': 'from a import xa, xb\nfrom b import *\nxc = 3\n'},
                           [('a.', 'import a\na.', (2, 2)), ('b.', 'import b\nb.', (2, 2)), ('c.', 'import c\nc.', (2, 2)),
                            ('from a import *', 'from a import *\nx', (2, 1)), ('from b import *', 'from b import *\nx', (2, 1))]),
+    'star-import-ring-of-three': ({'pa.py': 'from pb import *\nalpha = 1\n', 'pb.py': 'from pc import *\nbeta = 2\n', 'pc.py': 'from pa import *\ngamma = 3\n',
+                                   'pd.py': 'from pb import *\nfrom pc import gamma as g2\ndelta = 4\n'},
+                                  [('pa.', 'import pa\npa.', (2, 3)), ('pb.', 'import pb\npb.', (2, 3)), ('pc.', 'import pc\npc.', (2, 3)), ('pd.', 'import pd\npd.', (2, 3))]),
+    'class-whose-base-is-answered-through-itself': ({'plug.py': 'class Mixin(object):\n    def mixed(self):\n        return 1\n\n\ndef base_for():\n    return Plugin.fallback\n\n\n'
+                                                                 'class Plugin(base_for()):\n    fallback = Mixin\n\n    def run(self):\n        return 2\n\n\n'
+                                                                 'class Late(Plugin):\n    own = Plugin.fallback\n'},
+                                                    [('base_for().', 'import plug\nplug.base_for().', (2, 16)), ('Plugin.', 'import plug\nplug.Plugin.', (2, 12)),
+                                                     ('Plugin().', 'import plug\nplug.Plugin().', (2, 14)), ('Late().', 'import plug\nplug.Late().', (2, 12)),
+                                                     ('Late.own.', 'import plug\nplug.Late.own.', (2, 14))]),
     'from-import-cycle': ({'p.py': 'from q import qv\npv = 1\ndef pf(): return qv\n', 'q.py': 'from p import pv\nqv = 2\nclass Q:\n    attr = pv\n'},
                           [('p.', 'import p\np.', (2, 2)), ('q.', 'import q\nq.', (2, 2)), ('q.Q.', 'import q\nq.Q.', (2, 4)), ('p.pf().', 'import p\np.pf().', (2, 7))]),
 }
@@ -140,7 +149,7 @@ finally:
 
 
 @harness(['C04', 'C09'], 'supp.assistant.assist / supp.linter.lint on one long-lived Project [every ordered pair of requests]',
-         bounded='2 projects whose modules import each other in cycles (star imports, from-imports), every request sequence of length 2 and 3; 4 project modules (mutually recursive functions with a base case, attributes assigned on values reached through self, a class '
+         bounded='4 projects (modules importing each other in cycles: star imports in rings of two and three, from-imports; a class whose base expression is answered through the class itself), every request sequence of length 2 and 3; 4 project modules (mutually recursive functions with a base case, attributes assigned on values reached through self, a class '
                  'hierarchy evaluated through its instances and through a merged value, loop-carried values) x every ordered pair of requests '
                  '(completion of every top-level name, of the module itself, lint of the module) on one Project, compared with the second '
                  'request alone on a fresh Project')
